@@ -76,9 +76,10 @@ impl GenCfg {
     pub fn medium() -> GenCfg {
         GenCfg {
             rounds: (2, 4),
-            first_ops: (100, 700),
-            later_ops: (5, 200),
-            id_pool: (128, 1024),
+            first_ops: (250, 800),
+            later_ops: (5, 300),
+            id_pool: (256, 1024),
+            op_weights: [78, 18, 3, 1, 0],
             dims: vec![(3, vec![2, 3, 4]), (3, vec![8, 16, 20, 40]), (1, vec![63, 65, 130])],
             threads: vec![1, 2, 4, 8],
             max_indexes: 1,
